@@ -6,6 +6,7 @@ mod model;
 mod profiles;
 mod profiles2;
 mod profiles3;
+mod profiles4;
 mod rng;
 mod runner;
 mod sched;
@@ -70,11 +71,19 @@ fn cmd_run(args: &[String]) {
         let case = profiles::gen_case(prop, rs, thorough);
         let out = runner::run_case(prop, &case);
         agg.add(i, rs, &case, &out);
-        if !out.violations.is_empty() && agg.violations.len() < 5 {
-            agg.violations.push(serde_json::json!({
-                "i": i, "run_seed": rs, "violations": out.violations, "case": case,
-                "choices": out.choices, "trace": out.trace, "log_hash": out.log_hash,
-            }));
+        agg.note_violation(i, rs, &case, &out);
+        if prop == "C11" && out.violations.is_empty() && out.harness_error.is_none() {
+            // fault enumeration: the same (history, schedule seed) with one fault at op k
+            let variants = profiles3::fault_variants(&case, &out, out.setup_ops, thorough);
+            for (j, vc) in variants.iter().enumerate() {
+                if t0.elapsed().as_secs_f64() > budget {
+                    break;
+                }
+                let vout = runner::run_case(prop, vc);
+                agg.fault_points += 1;
+                agg.add(1_000_000_000 + i * 4096 + j as u64, rs, vc, &vout);
+                agg.note_violation(i, rs, vc, &vout);
+            }
         }
         i += sn;
     }
@@ -171,7 +180,6 @@ impl Agg {
         self.images_distinct += out.images_distinct;
         self.publications_checked += out.publications_checked;
         self.commits_ok += out.commits_ok;
-        self.fault_points += out.fault_points;
         self.api_errors += out.api_errors.len() as u64;
         if self.samples.len() < 2 && out.nontrivial {
             self.samples.push(serde_json::json!({
@@ -184,6 +192,15 @@ impl Agg {
                 "ops": case.ops.iter().map(exec::short_op).collect::<Vec<_>>(),
                 "steps": out.steps, "storage_ops": out.storage_ops, "context_switches": out.context_switches,
                 "api_errors": out.api_errors, "first_fault": out.first_fault,
+            }));
+        }
+    }
+
+    fn note_violation(&mut self, i: u64, rs: u64, case: &workload::Case, out: &exec::RunOut) {
+        if !out.violations.is_empty() && self.violations.len() < 5 {
+            self.violations.push(serde_json::json!({
+                "i": i, "run_seed": rs, "violations": out.violations, "case": case,
+                "choices": out.choices, "trace": out.trace, "log_hash": out.log_hash,
             }));
         }
     }
